@@ -14,7 +14,15 @@ Mode: the model follows the PINNED code (no fix).  The pinned code violates two 
   `C18_same_program_partial` under the decidable side condition `SafeFile`;
 * "never fails": false — `C18_total_counterexample`; proved instead `C18_total_partial` under `Breakable`.
 The clauses "no line longer than the limit" and "applying the limiter again changes nothing" hold in full:
-`C18_length`, `C18_idempotent`. -/
+`C18_length`, `C18_idempotent`.
+
+Call sites (generator.main, Kern.rename_and_write in psyGen.py, kernel_tools.run): the glue "every emitted text is
+passed through `process 132` when limiting is requested" is modelled by `emit` below and the clauses are lifted to
+all emitted texts (`C18_emit_length`, `C18_emit_idempotent`, `C18_emit_same_program_partial`).  That the real call
+sites ARE this glue (for algorithm files with and without invokes, PSy layers, transformed kernels, kernel stubs,
+`-l output|all`) is NOT a Lean theorem: it is established on every run by the end-to-end family of the harness
+(harness/props/c18_e2e.py), which runs the real entry points and evaluates the clauses on every emitted file against
+the unlimited output of the same run. -/
 namespace C18
 
 /-! ## helper lemmas -/
@@ -387,5 +395,66 @@ example : SafeFile 40 St.init witSafe = true := by decide +kernel
 example : (okVal (process 40 witSafe)).map List.length = some 9 := by decide +kernel
 example : (okVal (process 40 witSafe)).map logical = some (logical witSafe) := by decide +kernel
 example : (logical witSafe).length = 4 := by decide +kernel
+
+
+/-! ## The call-site glue -/
+
+/-- every emitted text goes through the limiter when limiting is requested (`-l output|all`; always for
+transformed kernels) -/
+def emit (limit : Bool) (L : Nat) : List (List Line) → Except Err (List (List Line))
+  | [] => .ok []
+  | t :: ts =>
+    match (if limit then process L t else .ok t) with
+    | .error e => .error e
+    | .ok o =>
+      match emit limit L ts with
+      | .error e => .error e
+      | .ok os => .ok (o :: os)
+
+theorem emit_cons_ok (L : Nat) (t : List Line) (ts : List (List Line)) (os : List (List Line))
+    (h : emit true L (t :: ts) = .ok os) :
+    ∃ o os', process L t = .ok o ∧ emit true L ts = .ok os' ∧ os = o :: os' := by
+  simp only [emit, if_true] at h
+  split at h
+  · cases h
+  · rename_i o ho
+    split at h
+    · cases h
+    · rename_i os' hos
+      cases h
+      exact ⟨o, os', ho, hos, rfl⟩
+
+/-- no emitted file has a line longer than the limit -/
+theorem C18_emit_length (L : Nat) (ts os : List (List Line)) (h : emit true L ts = .ok os) :
+    ∀ o ∈ os, ∀ l ∈ o, l.length ≤ L := by
+  induction ts generalizing os with
+  | nil => simp [emit] at h; cases h; simp
+  | cons t ts ih =>
+    obtain ⟨o, os', ho, hos, rfl⟩ := emit_cons_ok L t ts os h
+    intro x hx
+    rcases List.mem_cons.mp hx with rfl | hx
+    · exact C18_length L t _ ho
+    · exact ih os' hos x hx
+
+/-- re-limiting the emitted files changes nothing -/
+theorem C18_emit_idempotent (L : Nat) (ts os : List (List Line)) (h : emit true L ts = .ok os) :
+    emit true L os = .ok os := by
+  induction ts generalizing os with
+  | nil => simp [emit] at h; cases h; rfl
+  | cons t ts ih =>
+    obtain ⟨o, os', ho, hos, rfl⟩ := emit_cons_ok L t ts os h
+    simp only [emit, if_true, C18_idempotent L t o ho, ih os' hos]
+
+/-- every emitted file has the logical lines of its unlimited text (texts outside the defect classes) -/
+theorem C18_emit_same_program_partial (L : Nat) (ts os : List (List Line))
+    (hsafe : ∀ t ∈ ts, SafeFile L St.init t = true) (h : emit true L ts = .ok os) :
+    os.map logical = ts.map logical := by
+  induction ts generalizing os with
+  | nil => simp [emit] at h; cases h; rfl
+  | cons t ts ih =>
+    obtain ⟨o, os', ho, hos, rfl⟩ := emit_cons_ok L t ts os h
+    simp only [List.map_cons]
+    rw [C18_same_program_partial L t o (hsafe t List.mem_cons_self) ho,
+      ih os' (fun x hx => hsafe x (List.mem_cons_of_mem _ hx)) hos]
 
 end C18
